@@ -2,6 +2,7 @@
 
 use crate::async_vfs::{AsyncFileSystem, AsyncVfsPath, SeekAndRead};
 use crate::error::VfsErrorKind;
+use crate::path::VfsFileType;
 use crate::{VfsMetadata, VfsResult};
 
 use async_std::io::Write;
@@ -76,6 +77,12 @@ impl AsyncOverlayFS {
         if let Some(index) = separator {
             let parent_path = &path[..index];
             if self.exists(parent_path).await? {
+                // a file of a lower layer must not be shadowed by a directory
+                if self.metadata(parent_path).await?.file_type != VfsFileType::Directory {
+                    return Err(
+                        VfsErrorKind::Other("Parent path is not a directory".into()).into(),
+                    );
+                }
                 self.write_path(parent_path)?.create_dir_all().await?;
                 return Ok(());
             }
@@ -91,13 +98,14 @@ impl AsyncFileSystem for AsyncOverlayFS {
         path: &str,
     ) -> VfsResult<Box<dyn Stream<Item = String> + Send + Unpin>> {
         let actual_path = if !path.is_empty() { &path[1..] } else { path };
-        if !self.read_path(path).await?.exists().await? {
-            return Err(VfsErrorKind::FileNotFound.into());
+        if self.read_path(path).await?.metadata().await?.file_type != VfsFileType::Directory {
+            return Err(VfsErrorKind::Other("Not a directory".into()).into());
         }
         let mut entries = HashSet::<String>::new();
         for layer in &self.layers {
             let layer_path = layer.join(actual_path)?;
-            if layer_path.exists().await? {
+            // a file of a lower layer may be shadowed by a directory of the same name
+            if layer_path.is_dir().await? {
                 let mut path_stream = layer_path.read_dir().await?;
                 while let Some(path) = path_stream.next().await {
                     entries.insert(path.filename());
@@ -115,11 +123,23 @@ impl AsyncFileSystem for AsyncOverlayFS {
                 }
             }
         }
+        if path.is_empty() {
+            // the deletion markers are bookkeeping, not entries of the overlay
+            entries.remove(".whiteout");
+        }
         Ok(Box::new(futures::stream::iter(entries)))
     }
 
     async fn create_dir(&self, path: &str) -> VfsResult<()> {
         self.ensure_has_parent(path).await?;
+        // the target may be occupied by an entry of a lower layer
+        if self.exists(path).await? {
+            return Err(match self.metadata(path).await?.file_type {
+                VfsFileType::File => VfsErrorKind::FileExists,
+                VfsFileType::Directory => VfsErrorKind::DirectoryExists,
+            }
+            .into());
+        }
         self.write_path(path)?.create_dir().await?;
         let whiteout_path = self.whiteout_path(path)?;
         if whiteout_path.exists().await? {
@@ -134,6 +154,12 @@ impl AsyncFileSystem for AsyncOverlayFS {
 
     async fn create_file(&self, path: &str) -> VfsResult<Box<dyn Write + Send + Unpin>> {
         self.ensure_has_parent(path).await?;
+        // a directory of a lower layer must not be replaced by a file
+        if self.exists(path).await?
+            && self.metadata(path).await?.file_type == VfsFileType::Directory
+        {
+            return Err(VfsErrorKind::Other("Path is a directory".into()).into());
+        }
         let result = self.write_path(path)?.create_file().await?;
         let whiteout_path = self.whiteout_path(path)?;
         if whiteout_path.exists().await? {
@@ -178,7 +204,11 @@ impl AsyncFileSystem for AsyncOverlayFS {
         }
         match self.read_path(path).await {
             Ok(p) => p.exists().await,
-            Err(_) => Ok(false),
+            Err(err) => match err.kind() {
+                VfsErrorKind::FileNotFound => Ok(false),
+                // a failing layer does not make the entry absent
+                _ => Err(err),
+            },
         }
     }
 
@@ -198,6 +228,10 @@ impl AsyncFileSystem for AsyncOverlayFS {
     async fn remove_dir(&self, path: &str) -> VfsResult<()> {
         // Ensure path exists
         self.read_path(path).await?;
+        // entries of lower layers count as well
+        if self.read_dir(path).await?.next().await.is_some() {
+            return Err(VfsErrorKind::Other("Directory to remove is not empty".into()).into());
+        }
         let write_path = self.write_path(path)?;
         if write_path.exists().await? {
             write_path.remove_dir().await?;
